@@ -50,6 +50,11 @@ def materialise(inp):
         return inp['v']
     if t == 'nest':
         return nest(inp['c'], inp['d'])
+    if t == 'words':
+        # a statement with inp['n'] distinct, never-seen-before identifiers
+        k = inp.get('k', 0)
+        return 'select ' + ', '.join(
+            'w%dx%d' % (k, i) for i in range(inp['n'])) + ' from t%d' % k
     if t == 'bytes':
         return inp['v'].encode(inp['enc'])
     if t == 'rawbytes':
